@@ -23,11 +23,11 @@
 
 int computeByteSizePerIntValue(int64_t valueRangeSize)
 {
-	if(valueRangeSize<=256)
+	if(valueRangeSize<256) //offsets 0..valueRangeSize must fit
 		return 1;
-	else if(valueRangeSize<=65536)
+	else if(valueRangeSize<65536)
 		return 2;
-	else if(valueRangeSize<=4294967296) //2^32
+	else if(valueRangeSize<4294967296) //2^32
 		return 4;
 	else
 		return 8;
